@@ -223,8 +223,19 @@ impl UnixTerminal {
         .unwrap_or(()); // ignore write errors
 
         // wait for device attributes report or error
+        let mut quits = 0;
+        let mut send = self.stats.send;
         loop {
             match self.poll(Some(Duration::from_secs(1))) {
+                // termination signal received while disposing must not prevent
+                // epilogue from being delivered, keep going while output is
+                // making progress
+                Err(Error::Quit)
+                    if !self.write_queue.is_empty() && (quits < 4 || send != self.stats.send) =>
+                {
+                    quits += 1;
+                    send = self.stats.send;
+                }
                 Err(_) | Ok(Some(TerminalEvent::DeviceAttrs(_)) | None) => break,
                 _ => {}
             }
